@@ -29,6 +29,21 @@ def apply_mutant(m, d):
     if 'patch' in m:
         okp, msg = mutate.apply_patch(d, os.path.join(VERIF, m['patch']))
         return okp, msg
+    if 'rename' in m:
+        import re
+        n = 0
+        for root, dirs, fs in os.walk(os.path.join(d, 'src')):
+            for f in fs:
+                if f.endswith('.rs'):
+                    p = os.path.join(root, f)
+                    t = open(p).read()
+                    t2 = t
+                    for a, b in m['rename'].items():
+                        t2 = re.sub(r'\b%s\b' % re.escape(a), b, t2)
+                    if t2 != t:
+                        n += 1
+                        open(p, 'w').write(t2)
+        return n > 0, 'no identifier found' if n == 0 else ''
     subs = [(m['old'], m['new'])] + list(m.get('also', []))
     p = os.path.join(d, m['file'])
     try:
@@ -40,6 +55,12 @@ def apply_mutant(m, d):
             return False, 'text to replace occurs %d times in %s' % (s.count(old), m['file'])
         s = s.replace(old, new)
     open(p, 'w').write(s)
+    for (f2, old, new) in m.get('also_files', []):
+        p2 = os.path.join(d, f2)
+        t = open(p2).read()
+        if t.count(old) != 1:
+            return False, 'text to replace occurs %d times in %s' % (t.count(old), f2)
+        open(p2, 'w').write(t.replace(old, new))
     return True, ''
 
 
